@@ -17,7 +17,10 @@ def srcBlkViews : List (String × (Bool → Frag → Rd.R) × Codec × (Val → 
   ("AccountStorage", SrcBlk.AccountStorage, accountStorage, Blk.view_AccountStorage),
   ("Account", SrcBlk.Account, account, Blk.view_Account),
   ("ShardAccount", SrcBlk.ShardAccount, shardAccount, Blk.view_ShardAccount),
-  ("ValidatorSet", SrcBlk.ValidatorSet, validatorSet, Blk.view_ValidatorSet)]
+  ("ValidatorSet", SrcBlk.ValidatorSet, validatorSet, Blk.view_ValidatorSet),
+  ("ShardAccounts", SrcBlk.ShardAccounts, shardAccounts, Blk.view_ShardAccounts),
+  ("OldMcBlocksInfo", SrcBlk.OldMcBlocksInfo, oldMcBlocksInfo, Blk.view_OldMcBlocksInfo),
+  ("BlockCreateStats", SrcBlk.BlockCreateStats, blockCreateStats, Blk.view_BlockCreateStats)]
 
 /-- `tlbsrcblk <Class> <dag> <node>` → `ok <value json> <remaining bits> <remaining refs>` | `none` :
     the regenerated reader of the class run on that cell -/
